@@ -443,6 +443,7 @@ type FuncSpec struct {
 	Props     []string
 	Requires  []*Clause
 	Ensures   []*Clause
+	Flows     []FlowSpec
 	Receives  []*Clause // channel invariants: "receives <chan>: P($msg)" (assumed when receiving from <chan>)
 	Callback  bool      // function-type contract of a user callback: its effects are not attributed to the caller's frame
 	Defines   []*Clause // naming clauses: assumed at call sites, not checked (they only introduce a name for the result)
@@ -459,6 +460,11 @@ type FuncSpec struct {
 	Implements string          // name of a function-type contract ("type ModifyFn") this function must also satisfy
 	ftSig     *types.Signature // contracts of named function types
 	ftParams  []string
+}
+
+type FlowSpec struct {
+	Param, Callee, Where string
+	Props                []string
 }
 
 type SpecFunc struct {
@@ -560,7 +566,7 @@ func parseModifies(rest, where string) ([]*SExpr, error) {
 
 var specKeywords = map[string]bool{"func": true, "props": true, "requires": true, "ensures": true, "modifies": true,
 	"loop": true, "invariant": true, "decreases": true, "step": true, "spec": true, "axiom": true, "lemma": true, "trusted": true,
-	"pure": true, "end": true, "allocates": true, "maypanic": true, "ghost": true, "implements": true, "defines": true, "receives": true, "callback": true}
+	"pure": true, "end": true, "allocates": true, "maypanic": true, "ghost": true, "implements": true, "defines": true, "receives": true, "callback": true, "onlyflows": true}
 
 // parseSpecFile reads one verif_contracts.go file.
 func parseSpecFile(path, pkg string) (*SpecFile, error) {
@@ -677,6 +683,17 @@ func parseSpecFile(path, pkg string) (*SpecFile, error) {
 			if curF != nil {
 				curF.Callback = true
 			}
+		case "onlyflows":
+			// onlyflows <param> <callee> {props}: the parameter is used only as an argument of calls to <callee>
+			f := strings.Fields(rest)
+			if curF == nil || len(f) < 2 {
+				return nil, fmt.Errorf("%s: expected 'onlyflows <param> <callee> [{props}]'", l.where)
+			}
+			fl := FlowSpec{Param: f[0], Callee: f[1], Where: l.where, Props: curF.Props}
+			if len(f) > 2 {
+				fl.Props = strings.FieldsFunc(strings.Trim(strings.Join(f[2:], " "), "{}"), func(r rune) bool { return r == ',' || r == ' ' })
+			}
+			curF.Flows = append(curF.Flows, fl)
 		case "receives":
 			if curF == nil {
 				return nil, fmt.Errorf("%s: receives outside func", l.where)
